@@ -396,6 +396,11 @@ def normalize(raw):
                         proto = fl[k[0]]
                         fl[k[0]:k[0] + 1] = [dict(proto, name=n, ty=t) for n, t in tys.items()]
         log["grouped_fields"] = {f"{p}.{f}": sorted(m.values()) for (p, f), (sty, m, tys) in gmap.items()}
+    # ---- an out-parameter (`value: &mut T`, returns R) turned into a component of the returned tuple (`-> (T, R)`):
+    # the body stores the component through a re-created parameter, call sites hand it a fresh local
+    outp = _tuple_return_to_out_parameter(raw, pin)
+    if outp:
+        log["out_parameters"] = outp
     # ---- several parameters of a function bundled into one parameter of a new private struct (by value or by
     # reference): the struct parameter is replaced by one parameter per field, in the body and at every call site
     pobj = _flatten_parameter_objects(raw, pin)
@@ -753,4 +758,204 @@ def _flatten_parameter_objects(raw, pin):
                 p["ty"] = f["ty"]
                 fa.append({"k": "copy", "pl": p})
             t["args"] = rest + fa
+    return done
+
+
+def _split_top(s):
+    out, depth, cur = [], 0, ""
+    for ch in s:
+        if ch in "<([":
+            depth += 1
+        elif ch in ">)]":
+            depth -= 1
+        if ch == "," and depth == 0:
+            out.append(cur.strip())
+            cur = ""
+        else:
+            cur += ch
+    if cur.strip():
+        out.append(cur.strip())
+    return out
+
+
+def _sig_parts(sig):
+    """'for<..> fn(A, B) -> R' -> ([A, B], R) with lifetimes erased"""
+    sig = re.sub(r"'\w+ ", "", sig)
+    i = sig.find("fn(")
+    if i < 0:
+        return None
+    depth, j = 0, i + 2
+    for j in range(i + 2, len(sig)):
+        if sig[j] == "(":
+            depth += 1
+        elif sig[j] == ")":
+            depth -= 1
+            if depth == 0:
+                break
+    params = _split_top(sig[i + 3:j])
+    rest = sig[j + 1:].strip()
+    ret = rest[2:].strip() if rest.startswith("->") else "()"
+    return params, ret
+
+
+def _shift_locals(b, at, by=1):
+    """make room for `by` new locals at index `at`"""
+    def remap(o):
+        if isinstance(o, dict):
+            if "l" in o and "p" in o and isinstance(o["p"], list):
+                if o["l"] >= at:
+                    o["l"] += by
+                for el in o["p"]:
+                    if isinstance(el, dict) and "index" in el and el["index"] >= at:
+                        el["index"] += by
+                return
+            for k, v in o.items():
+                if k not in ("span", "fn"):
+                    remap(v)
+        elif isinstance(o, list):
+            for v in o:
+                remap(v)
+    remap(b["blocks"])
+    remap(b["names"])
+
+
+def _tuple_return_to_out_parameter(raw, pin):
+    done = {}
+    plans = {}
+    for b in raw["bodies"]:
+        pf = pin["fns"].get(b["path"])
+        if not pf or b["kind"] not in ("Fn", "AssocFn") or b["arg_count"] != len(pf["params"]) - 1:
+            continue
+        sp = _sig_parts(pf["sig"])
+        if sp is None or len(sp[0]) != len(pf["params"]):
+            continue
+        nm = {}
+        for n in b["names"]:
+            pl = n["place"]
+            if not pl["p"] and 1 <= pl["l"] <= b["arg_count"]:
+                nm.setdefault(pl["l"], n["name"])
+        cn = [nm.get(i, "") for i in range(1, b["arg_count"] + 1)]
+        missing = [(n, t) for n, t in zip(pf["params"], sp[0]) if n not in cn]
+        if len(missing) != 1 or "" in cn or not missing[0][1].startswith("&mut "):
+            continue
+        T, R = missing[0][1][5:].strip(), sp[1]
+        cur_ret = b["locals"][0]["ty"]
+        if not (cur_ret.startswith("(") and cur_ret.endswith(")")):
+            continue
+        comps = _split_top(cur_ret[1:-1])
+        if len(comps) != 2 or T == R or sorted(comps) != sorted([T, R]):
+            continue
+        ti = comps.index(T)
+        # every definition of the return place is the whole tuple or one of its components
+        ok = True
+        for blk in b["blocks"]:
+            for st in blk["stmts"]:
+                if st["s"] == "assign" and st["pl"]["l"] == 0 and not st["pl"]["p"] and not (st["rv"]["rv"] == "agg" and st["rv"].get("ak") == "tuple" and len(st["rv"]["ops"]) == 2):
+                    ok = False
+            t = blk["term"]
+            if t.get("t") == "call" and t["dest"]["l"] == 0 and not t["dest"]["p"]:
+                ok = False
+        if ok:
+            plans[b["path"]] = (b, missing[0][0], T, R, ti)
+    for path, (b, pname, T, R, ti) in plans.items():
+        at = b["arg_count"] + 1
+        _shift_locals(b, at)
+        b["locals"].insert(at, {"ty": "&mut " + T})
+        b["arg_count"] += 1
+        b["locals"][0] = dict(b["locals"][0], ty=R)
+        b["names"].insert(0, {"name": pname, "place": {"l": at, "p": [], "ty": "&mut " + T}})
+        for blk in b["blocks"]:
+            new = []
+            for st in blk["stmts"]:
+                if st["s"] == "assign" and st["pl"]["l"] == 0 and not st["pl"]["p"]:
+                    ops = st["rv"]["ops"]
+                    new.append({"s": "assign", "pl": {"l": at, "p": ["*"], "ty": T}, "rv": {"rv": "use", "op": ops[ti]}, "span": st["span"]})
+                    new.append({"s": "assign", "pl": {"l": 0, "p": [], "ty": R}, "rv": {"rv": "use", "op": ops[1 - ti]}, "span": st["span"]})
+                    continue
+                new.append(st)
+            blk["stmts"] = new
+
+        def fix(o):
+            # component-wise accesses of the return place
+            if isinstance(o, dict):
+                if "l" in o and "p" in o and isinstance(o["p"], list):
+                    if o["l"] == 0 and o["p"] and isinstance(o["p"][0], dict) and "f" in o["p"][0]:
+                        if o["p"][0]["f"] == ti:
+                            o["l"], o["p"] = at, ["*"] + o["p"][1:]
+                        else:
+                            o["p"] = o["p"][1:]
+                    return
+                for k, v in o.items():
+                    if k not in ("span", "fn"):
+                        fix(v)
+            elif isinstance(o, list):
+                for v in o:
+                    fix(v)
+        fix(b["blocks"])
+        for f_ in raw["fns"]:
+            if f_["path"] == path:
+                f_["inputs"] = list(f_.get("inputs", [])) + ["&mut " + T]
+                f_["output"] = R
+        done[path] = {"parameter": pname, "type": T, "returned_component": ti}
+    if not plans:
+        return done
+    for b in raw["bodies"]:
+        sites = []
+        for bi, blk in enumerate(b["blocks"]):
+            t = blk["term"]
+            if t.get("t") != "call":
+                continue
+            fn = t.get("func", {}).get("fn") if t.get("func", {}).get("k") == "const" else None
+            pl = plans.get((fn or {}).get("resolved") or (fn or {}).get("path"))
+            if pl and not t["dest"]["p"] and len(t["args"]) == pl[0]["arg_count"] - 1:
+                sites.append((bi, pl))
+        for bi, (cb, pname, T, R, ti) in sites:
+            t = b["blocks"][bi]["term"]
+            D = t["dest"]["l"]
+            # every other mention of D is a component access (or D is given up)
+            ok = True
+
+            def scan(o):
+                nonlocal ok
+                if isinstance(o, dict):
+                    if "l" in o and "p" in o and isinstance(o["p"], list):
+                        if o["l"] == D and not (o["p"] and isinstance(o["p"][0], dict) and "f" in o["p"][0]):
+                            ok = False
+                        return
+                    for k, v in o.items():
+                        if k not in ("span", "fn", "dest"):
+                            scan(v)
+                elif isinstance(o, list):
+                    for v in o:
+                        scan(v)
+            for blk in b["blocks"]:
+                scan([st for st in blk["stmts"] if st["s"] == "assign"])
+                scan(blk["term"])
+            if not ok or sum(1 for blk in b["blocks"] if blk["term"].get("t") == "call" and blk["term"]["dest"]["l"] == D) != 1:
+                continue
+            tl = len(b["locals"])
+            b["locals"].append({"ty": T})
+            b["locals"].append({"ty": "&mut " + T})
+            b["locals"][D] = dict(b["locals"][D], ty=R)
+
+            def fix(o):
+                if isinstance(o, dict):
+                    if "l" in o and "p" in o and isinstance(o["p"], list):
+                        if o["l"] == D and o["p"]:
+                            if o["p"][0]["f"] == ti:
+                                o["l"] = tl
+                            o["p"] = o["p"][1:]
+                        elif o["l"] == D:
+                            o["ty"] = R
+                        return
+                    for k, v in o.items():
+                        if k not in ("span", "fn"):
+                            fix(v)
+                elif isinstance(o, list):
+                    for v in o:
+                        fix(v)
+            fix(b["blocks"])
+            sp = t.get("span")
+            b["blocks"][bi]["stmts"].append({"s": "assign", "pl": {"l": tl + 1, "p": [], "ty": "&mut " + T}, "rv": {"rv": "ref", "bk": "mut", "pl": {"l": tl, "p": [], "ty": T}}, "span": sp})
+            t["args"] = list(t["args"]) + [{"k": "move", "pl": {"l": tl + 1, "p": [], "ty": "&mut " + T}}]
     return done
